@@ -384,7 +384,7 @@ def execute(case: dict) -> dict:
             if cond.locked():
                 viol.append(("condition-lock-left-held", {}))
 
-    info: dict = {}
+    info: dict = {"stuck_ticks": 600}
     try:
         run(main, config=case["cfg"], info=info)
     except Deadlock:
@@ -518,10 +518,11 @@ def execute_refusal(case: dict) -> dict:
 
 def all_cases(tier: str, seed: int):  # noqa: ANN201
     cfgs = ["stock", "eager"]
+    rcfgs = ["stock", "eager"] * 3 + ["uvloop"]  # a share of the random cases on uvloop
     yield from sweep_cases(cfgs)
     rng = random.Random(seed * 4099 + 11)
     for _ in range(60000 if tier == "thorough" else 6000):
-        yield gen_random(rng, cfgs)
+        yield gen_random(rng, rcfgs)
 
 
 def judge(case: dict, col) -> None:  # noqa: ANN001
